@@ -145,7 +145,14 @@ void sched_begin(uint64_t seed, int mode, int pct_depth, uint64_t expected_len, 
 }
 void sched_end(sched_result* out)
 {
-    for (int t = 1; t < nT; t++) if (T[t].st != T_FINISHED) { fprintf(stderr, "sched_end: thread %d not finished (harness must join everything)\n", t); abort(); }
+    {   int live = 0; for (int t = 1; t < nT; t++) if (T[t].st != T_FINISHED) live++;
+        if (live) {   /* the program under test returned from its teardown with threads it created still alive */
+            g_res.steps = g_steps; g_res.hash = g_hash; g_res.threads = (unsigned)nT; g_res.deadlock = 0; g_res.livelock = 0;
+            describe_stuck(); { char tmp[256]; snprintf(tmp, sizeof tmp, "live-threads-after-teardown:%s", g_res.blocked); memcpy(g_res.blocked, tmp, sizeof g_res.blocked); g_res.blocked[sizeof g_res.blocked - 1] = 0; }
+            if (sched_on_stuck) sched_on_stuck(&g_res);
+            fprintf(stderr, "sched_end: %d thread(s) not finished: %s\n", live, g_res.blocked);
+            _exit(79);
+        } }
     g_active = 0; self = -1;
     for (int t = 1; t < nT; t++) { if (!T[t].reaped) __real_pthread_join(T[t].real, NULL); sem_destroy(&T[t].sem); }
     sem_destroy(&T[0].sem);
